@@ -15,8 +15,8 @@ class CampaignParser:
                 message = None
                 base_language = None
                 if row.message:
-                    message = {"eng": row.message}
                     base_language = row.base_language or "eng"
+                    message = {base_language: row.message}
                 delivery_hour = -1
                 if row.delivery_hour:
                     delivery_hour = int(row.delivery_hour)
